@@ -485,6 +485,7 @@ def _ui_pages(run, PV, D, ua, g, uo):
     run.floor("R4u", "exchanges in get_ui_attestation", len(sends), 4)
     kinds = {}
     PG = None
+    PGL = False       # PG is a list of pages (page number = len(PG)) rather than a counter
     for c, cmd in sends:
         okc = isinstance(cmd, EnumMember) and cmd.name == "UI_ATT"
         run.check("R4u", okc, "every request of the UI attestation goes to UI_ATT", key=f"get_ui_attestation|command|{getattr(c, 'lineno', 0)}", where=ua.loc(c),
@@ -501,6 +502,13 @@ def _ui_pages(run, PV, D, ua, g, uo):
                     m_ = re.fullmatch(rf"u8\({uo['OP_GET_MSG'].value}\) \| u8\((\w+)\)", lay)
                     if m_ and stop == (m_.group(1),):
                         PG = m_.group(1)
+                        lay = "PAGE"
+                        break
+                    # the page number kept as the number of pages gathered so far: len(<list of pages>)
+                    m_ = re.fullmatch(rf"u8\({uo['OP_GET_MSG'].value}\) \| u8\(len\((\w+)\)\)", lay)
+                    if m_ and stop == (m_.group(1),):
+                        PG = m_.group(1)
+                        PGL = True
                         lay = "PAGE"
                         break
                     if not stop:
@@ -522,9 +530,6 @@ def _ui_pages(run, PV, D, ua, g, uo):
         okd_ = all(any(g.dominates(a, b) for a in g.nodes_of(ud)) for b in g.nodes_of(later))
         run.check("R4u", okd_, f"the UD value is sent before {what} is requested", key=f"get_ui_attestation|ud-first|{what}", where=ua.loc(later),
                   message=f"{what} of the UI attestation can be requested without the UD value having been sent: the device signs over a stale or empty user-defined value")
-    okd_ = all(any(g.dominates(a, b) for a in g.nodes_of(pg)) for b in g.nodes_of(sg))
-    run.check("R4u", okd_, "the message is gathered before the signature request (which resets the device's state)", key="get_ui_attestation|pages-before-get", where=ua.loc(sg),
-              message="the signature can be requested before the message pages were read: OP_GET resets the attestation state and the pages are gone")
     loops = [n for n in A.own_nodes(ua) if isinstance(n, ast.While) and any(x is pg for x in ast.walk(n))]
     run.require(len(loops) == 1, "get_ui_attestation: the page loop (while ...: request page) was not identified")
     loop = loops[0]
@@ -532,6 +537,15 @@ def _ui_pages(run, PV, D, ua, g, uo):
     run.require(head is not None, "get_ui_attestation: page loop structure not understood")
     t_edges = [n for n in g.nodes if n.kind == "T" and n.cond is not None and n.cond.ast is loop.test]
     run.require(len(t_edges) == 1, "get_ui_attestation: page loop entry edge not found")
+    # `while <flag>:` with the flag True on entry is entered at least once, like `while True:`; the flag's new value says whether the loop goes on
+    FLAG = loop.test.id if isinstance(loop.test, ast.Name) else None
+    if FLAG is not None:
+        fds = [d for d in PV.defs(ua, D).get(FLAG, []) if not any(d.node is x for x in ast.walk(loop))]
+        if not (fds and all(d.kind == "assign" and isinstance(d.value, ast.Constant) and d.value.value is True for d in fds)):
+            FLAG = None
+    okd_ = all(any(g.dominates(a, b) for a in g.nodes_of(pg)) for b in g.nodes_of(sg)) or (FLAG is not None and all(g.dominates(head, b) for b in g.nodes_of(sg)))
+    run.check("R4u", okd_, "the message is gathered before the signature request (which resets the device's state)", key="get_ui_attestation|pages-before-get", where=ua.loc(sg),
+              message="the signature can be requested before the message pages were read: OP_GET resets the attestation state and the pages are gone")
     state = {"W": None}
 
     def resolve(e):
@@ -555,7 +569,7 @@ def _ui_pages(run, PV, D, ua, g, uo):
         l, op, r = cp
         okr, rv = try_fold(P, r, ua, D)
         rv = unwrap(rv) if okr else None
-        if isinstance(l, ast.Name) and l.id == PG and rv == MAXP:
+        if ((isinstance(l, ast.Name) and l.id == PG and not PGL) or (PGL and norm(l) == f"len({PG})")) and rv == MAXP:
             if op in ("==", ">=", "<", "!="):
                 return ("LIMIT", op in ("==", ">="))
         if isinstance(l, ast.Subscript) and not isinstance(l.slice, ast.Slice) and try_fold(P, l.slice, ua, D) == (True, DATA) and is_answer(l.value):
@@ -568,7 +582,7 @@ def _ui_pages(run, PV, D, ua, g, uo):
     n_cases = 0
     acc_names = set()
     # one iteration, starting at the loop's own test (`while n != MAX:` is the limit test; `while True:` is no test)
-    for lf in W.walk(head, stops={head}):
+    for lf in W.walk(head if FLAG is None else t_edges[0], stops={head}):
         unknown = sorted(k[1:] for k in lf.pc if isinstance(k, str) and k.startswith("?"))
         where = ua.loc(lf.node.ast) if lf.node.ast is not None else ua.loc(loop)
         run.check("R4u", not unknown, "the page loop decides on the page limit and the continuation flag only", key=f"get_ui_attestation|pages|extra|{';'.join(unknown)[:60]}", where=where,
@@ -577,9 +591,27 @@ def _ui_pages(run, PV, D, ua, g, uo):
             continue
         kind = "next" if lf.kind == "stop" else ("done" if lf.kind == "return" else lf.kind)
         state["W"]._bind = lf.bind
+        flag_more = None
+        if FLAG is not None and lf.kind == "stop":
+            # back at the test of `while <flag>:` - whether there is a next iteration is the flag's new value
+            fv = lf.env.get(FLAG, lf.bind.get(FLAG))
+            if isinstance(fv, ast.Constant) and isinstance(fv.value, bool):
+                kind = "next" if fv.value else "done"
+            elif fv is not None and (atom(fv) or (None,))[0] == "MORE":
+                flag_more = atom(fv)[1]
+            else:
+                kind = f"`{FLAG}` = {norm(fv)[:40] if fv is not None else 'unchanged (True)'}"
         reqs = [st_ for k_, st_, v_ in lf.effects if k_ in ("assign", "expr") and any(x is pg for x in ast.walk(st_))]
         apps = [(st_, v_) for k_, st_, v_ in lf.effects if k_ == "aug" and isinstance(st_.target, ast.Name) and isinstance(st_.op, ast.Add)
                 and any(isinstance(x, ast.Subscript) for x in ast.walk(st_.value)) and st_.target.id != PG]
+        if PGL:
+            # ... and the pages kept in that list: one append per iteration is both the growth of the message and the step of the page number
+            apps = [(st_, v_.args[0]) for k_, st_, v_ in lf.effects if k_ == "expr" and isinstance(v_, ast.Call) and isinstance(v_.func, ast.Attribute)
+                    and isinstance(v_.func.value, ast.Name) and v_.func.value.id == PG and len(v_.args) == 1 and v_.func.attr in ("append", "extend", "insert")]
+            oth = [norm(v_)[:50] for k_, st_, v_ in lf.effects if (k_ == "expr" and isinstance(v_, ast.Call) and isinstance(v_.func, ast.Attribute) and isinstance(v_.func.value, ast.Name)
+                                                                   and v_.func.value.id == PG and v_.func.attr != "append") or (k_ in ("assign", "aug") and PG in lf.env | lf.bind)]
+            run.check("R4u", not oth, "the list of pages only grows by appended pages", key="get_ui_attestation|pages|list-ops", where=where,
+                      message=f"the list of pages `{PG}` (whose length is the page number) is changed by {oth} in the page loop")
         for val in completions({k: b for k, b in lf.pc.items() if k in ("LIMIT", "MORE")}, ["LIMIT", "MORE"]):
             n_cases += 1
             desc = f"page limit {'reached' if val['LIMIT'] else 'not reached'}, more pages {'announced' if val['MORE'] else 'not announced'}"
@@ -588,7 +620,9 @@ def _ui_pages(run, PV, D, ua, g, uo):
                           message=f"UI attestation page loop, case [{desc}]: the iteration does `{kind}` with {len(reqs)} request(s); expected the page-limit error before any request")
                 continue
             want = "next" if val["MORE"] else "done"
-            run.check("R4u", kind == want and "MORE" in lf.pc and "LIMIT" in lf.pc, f"[{desc}] -> {want}", key=f"get_ui_attestation|pages|flow|{val['MORE']}", where=where,
+            if flag_more is not None:
+                kind = "next" if val["MORE"] == flag_more else "done"
+            run.check("R4u", kind == want and ("MORE" in lf.pc or flag_more is not None) and "LIMIT" in lf.pc, f"[{desc}] -> {want}", key=f"get_ui_attestation|pages|flow|{val['MORE']}", where=where,
                       message=f"UI attestation page loop, case [{desc}]: the iteration ends in `{kind}`, expected `{want}` (the device's flag byte says whether another page "
                               "follows; the limit is tested before each request)")
             run.check("R4u", len(reqs) == 1, f"[{desc}] one page request", key=f"get_ui_attestation|pages|requests|{val['MORE']}", where=where,
@@ -596,23 +630,26 @@ def _ui_pages(run, PV, D, ua, g, uo):
             off = None
             if len(apps) == 1:
                 v = resolve(apps[0][1])
-                acc_names.add(apps[0][0].target.id)
+                acc_names.add(PG if PGL else apps[0][0].target.id)
                 if isinstance(v, ast.Subscript) and isinstance(v.slice, ast.Slice) and v.slice.upper is None and v.slice.step is None and is_answer(v.value):
                     okl, lo = try_fold(P, v.slice.lower, ua, D) if v.slice.lower is not None else (True, 0)
                     off = unwrap(lo) - DATA if okl and isinstance(unwrap(lo), int) else None
             run.check("R4u", len(apps) == 1 and off == 1, f"[{desc}] the message grows by answer[DATA+1:]", key=f"get_ui_attestation|pages|append|{val['MORE']}", where=where,
                       message=f"UI attestation page loop, case [{desc}]: the iteration appends {[norm(resolve(a[1]))[:50] for a in apps]} (offset {off} after the data start); "
                               "expected exactly answer[DATA+1:], once - the page without its flag byte")
-            if val["MORE"]:
+            if val["MORE"] and not PGL:
                 nxt = lf.env.get(PG)
                 run.check("R4u", nxt is not None and norm(nxt) in (f"{PG} + 1", f"1 + {PG}"), f"[{desc}] next page is n + 1", key="get_ui_attestation|pages|counter", where=where,
                           message=f"UI attestation page loop, case [{desc}]: the page number becomes `{norm(nxt) if nxt is not None else PG + ' (unchanged)'}`, expected {PG} + 1")
     run.floor("R4u", "page-loop cases of get_ui_attestation", n_cases, 3)
     # start values
     outside = lambda d: not any(d.node is x for x in ast.walk(loop))   # noqa: E731
-    for nm, want, what in [(PG, 0, "the first page requested is page 0")] + [(a, b"", "the message starts empty") for a in sorted(acc_names)]:
+    for nm, want, what in ([(PG, [], "the list of pages starts empty (first page requested is page 0)")] if PGL else
+                           [(PG, 0, "the first page requested is page 0")] + [(a, b"", "the message starts empty") for a in sorted(acc_names)]):
         ds = [d for d in PV.defs(ua, D).get(nm, []) if d.kind == "assign" and outside(d)]
         okv = len(ds) == 1 and isinstance(ds[0].value, ast.Constant) and ds[0].value.value == want and type(ds[0].value.value) is type(want)
+        if PGL:
+            okv = len(ds) == 1 and isinstance(ds[0].value, ast.List) and not ds[0].value.elts
         run.check("R4u", okv, what, key=f"get_ui_attestation|pages|start|{nm}", where=ua.loc(ds[0].node) if ds else ua.loc(),
                   message=f"before the page loop `{nm}` is {[norm(d.value) for d in ds]}; expected {want!r}: {what}")
     # the result
@@ -628,7 +665,8 @@ def _ui_pages(run, PV, D, ua, g, uo):
                 run.check("R4u", got == {w}, f"result.{key} is the data of its answer, hex-encoded", key=f"get_ui_attestation|result|{key}", where=ua.loc(r),
                           message=f"get_ui_attestation returns {key} = {sorted(got)[:1]}, expected `{w}`")
             got = {_strip(x) for x in PV.expand_consistent(ua, D, d["message"], rn, stop=tuple(acc_names))} if "message" in d else set()
-            run.check("R4u", len(acc_names) == 1 and got == {f"{next(iter(acc_names))}.hex()"} and set(d) == {"app_hash", "message", "signature"}, "result.message is the gathered pages, hex-encoded",
+            wantm = {f"b''.join({PG}).hex()", f"bytes().join({PG}).hex()"} if PGL else {f"{next(iter(acc_names))}.hex()" if acc_names else ""}
+            run.check("R4u", len(acc_names) == 1 and len(got) == 1 and got <= wantm and set(d) == {"app_hash", "message", "signature"}, "result.message is the gathered pages, hex-encoded",
                       key="get_ui_attestation|result|message", where=ua.loc(r), message=f"get_ui_attestation returns message = {sorted(got)[:1]} / fields {sorted(d)}")
 
 
